@@ -64,6 +64,28 @@ try:
             fail(violation="a file outside the root was served", root=r, relative_path=rel, content=content)
         if not served and inside:
             fail(violation="a file inside the root was refused", root=r, relative_path=rel)
+    # the root of an execution context may itself be a symbolic link, and what it points to may change between two collections of one
+    # process (a new extraction directory, a remounted sysroot): containment is always judged against where the root leads NOW
+    for run in ("run1", "run2"):
+        os.makedirs(os.path.join(tmp, run, "etc"))
+        open(os.path.join(tmp, run, "etc", "conf"), "w").write(run + "\n")
+    os.symlink(os.path.join(tmp, "run1", "etc", "conf"), os.path.join(tmp, "run2", "etc", "back"))      # leads back into the OLD directory
+    cur = os.path.join(tmp, "current")
+    os.symlink(os.path.join(tmp, "run1"), cur)
+    first = TextFileProvider("etc/conf", root=cur).content
+    os.remove(cur)
+    os.symlink(os.path.join(tmp, "run2"), cur)
+    checked += 2
+    if first != ["run1"] or TextFileProvider("etc/conf", root=cur).content != ["run2"]:
+        fail(violation="a file inside the (re-pointed) root was not served as it is now", root=cur)
+    try:
+        content = TextFileProvider("etc/back", root=cur).content
+        fail(violation="a file outside the root was served (the root is a link that was re-pointed; containment was judged against where it led before)",
+             root=cur, root_now=os.path.realpath(cur), relative_path="etc/back", content=content)
+    except SystemExit:
+        raise
+    except Exception:
+        pass
 finally:
     shutil.rmtree(tmp, ignore_errors=True)
 print(json.dumps({"ok": True, "deny_checks": n, "containment_cases": checked, "max_len": L}))
